@@ -163,7 +163,7 @@ pub fn run_with(src: &str, stack: &[u64], inputs: AdviceInputs, script: Script) 
     let program = assemble_std(src)?;
     let case = Case { stack: stack.to_vec(), ..Case::default() };
     let mut host = DishonestHost { adv: MemAdviceProvider::from(inputs), script, lied: false };
-    let r = vm::catch(|| processor::execute(&program, case.stack_inputs(), &mut host, ExecutionOptions::default()));
+    let r = vm::catch(|| processor::execute(&program, case.stack_inputs(), &mut host, crate::vm::capped(ExecutionOptions::default())));
     Ok(match r {
         Ok(Ok(t)) => Res::Ok(vm::outputs_top_first(&t), host.lied),
         Ok(Err(e)) => Res::NotCompleted(format!("{e}")),
